@@ -1,9 +1,14 @@
 /-
   C17 — inherent mode: the semantic model is the one of trait mode; the header is `ImplGroupId [None, self_ty]`
-  (no trait path). Corollaries of the refinement theorems and of C16.
+  (no trait path). Corollaries of the refinement theorems and of C16; and (second half) the generators in inherent mode
+  produce the abstract program: `C17_expandOKB_of_expand_inherent`, `C17_expandOK_of_expand_inherent`,
+  `C17_helper_params_aligned`, `C17_items_delegate`, `C17_main_params_in_self`, counterexamples for the findings D32, D27
+  and for nested members (helper lemmas: Lemmas/ExpandInherent.lean).
 -/
 import DisjointImpls.Lemmas.Refine
 import DisjointImpls.Props.C16
+import DisjointImpls.Props.C01
+import DisjointImpls.Lemmas.ExpandInherent
 namespace DI
 
 /-- the generated inherent impls refine the user's blocks: a member is selected for a query exactly when its
@@ -72,5 +77,307 @@ example :
     let m : Member := ⟨blk, [("_ŠČ0", .identity)], [some (.node "GroupA" [] [])]⟩
     let F : Family := ⟨Coexist.hdr "1", [key], ["_ŠČ0"], [m]⟩
     memberOK F m = true ∧ F.hdr = Coexist.hdr "1" := by decide
+
+/-! ## The generators in inherent mode produce the abstract program (`Lemmas/ExpandInherent.lean`)
+
+In inherent mode (`disjoint_impls! { impl<…> Wrapper<…> { … } … }`, no trait) the helper trait is derived from the
+family's first block (`helperTraitOfInherent`: bounds removed, parameters sorted by `(!is_lifetime, ident)`, items turned
+into declarations), every helper impl is the member implementing `_Wrapper<idx><row…, sorted lifetimes, sorted params>`
+for its self type with the items' visibilities removed (`helperImpls`), and the main impl is the first block without its
+bounds, bounded by `Self: _Wrapper<idx><lifetimes, key projections, params>` and delegating every item
+(`mainImplInherent`). `firstItem_inh g` is the first block of the family `g`; all side conditions below are executable
+(`Bool`) functions of the family. -/
+
+/-- (a, the checker of C01) `expandOKB` — which in inherent mode checks, per member, that the helper impl keeps the
+    member's generics, self type and safety qualifier and has a trait path, and for the main impl the predicates `bounded: trait`
+    per key and `Self: helper<…, projections of the keys in order, …>` — accepts the model's inherent expansion of every
+    well-formed (`expandWF`) inherent family (`inherentFamily_inh`: the first block has no trait path). No condition on
+    wildcards is needed: `expandOKCore` does not look at the helper arguments in inherent mode. -/
+theorem C17_expandOKB_of_expand_inherent (idx : Nat) (g : T × ABG × List Blk) (hs : List T) (m : T)
+    (hh : helperImpls idx g = some hs) (hm : mainImplInherent idx g = .ok (some m))
+    (hwf : expandWF g = true) (hinh : inherentFamily_inh g = true) :
+    expandOKB g (thetasOf g) hs m = true :=
+  expandOK_of_expand_inherent_inh idx g hs m hh hm hwf hinh
+
+/-- (a, at full strength) the inherent-mode acceptance predicate `expandOKInh_inh` (Lemmas/ExpandInherent.lean; it reads
+    the generated trees only) accepts the model's expansion: every helper impl is its member — attributes, defaultness,
+    safety qualifier, generics and self type kept, items kept with their visibility removed — implementing the helper trait
+    (the name the main impl refers to) with `row ++ A` as arguments, where the row is checked like in trait mode (a payload
+    as a generic argument, a wildcard as the projection of the key through the member's substitution θ) and `A` are the
+    arguments the main impl passes besides the key projections, seen through θ; every parameter named in `A` is declared
+    by the helper impl and not relaxed with `?Sized` there; the helper trait's declaration is aligned (`refAligned_inh`)
+    with the reference of every helper impl and of the main impl; the main impl passes `checkMain` and has the family's
+    self type. Side conditions (all executable): `expandWF`, `wildcardsFixed` (as in C01, finding F-D3),
+    `inherentFamily_inh`, `firstNamed_inh` (every parameter of the first block has an identifier),
+    `selfArgsFixed_inh` (no member's substitution instantiates a parameter of the first block: fails for nested members,
+    see `C17_nested_member_counterexample`), `membersDeclare_inh` (every member declares every parameter of the first
+    block: fails for finding D32), `membersSized_inh` (no member relaxes a parameter of the first block with `?Sized`:
+    fails for finding D27). -/
+theorem C17_expandOK_of_expand_inherent (idx : Nat) (g : T × ABG × List Blk) (tr : T) (hs : List T) (m : T)
+    (ht : helperTraitOfInherent (firstItem_inh g) idx g.2.1.idents.length = .ok tr)
+    (hh : helperImpls idx g = some hs) (hm : mainImplInherent idx g = .ok (some m))
+    (hwf : expandWF g = true) (hfix : wildcardsFixed g = true)
+    (hinh : inherentFamily_inh g = true) (hn : firstNamed_inh g = true)
+    (hsa : selfArgsFixed_inh g = true) (hdecl : membersDeclare_inh g = true) (hsz : membersSized_inh g = true) :
+    expandOKB g (thetasOf g) hs m = true ∧ expandOKInh_inh g (thetasOf g) tr hs m = true :=
+  ⟨expandOK_of_expand_inherent_inh idx g hs m hh hm hwf hinh,
+   expandOKInh_of_expand_inh idx g tr hs m ht hh hm hwf hinh hn hfix hsa hdecl hsz⟩
+
+/-- (b) the helper trait declares exactly the parameters every reference passes, in the same order: for every helper
+    impl `h` and for the main impl, the reference `_Helper<args>` (the trait path of `h` / the `Self:` bound of the main
+    impl) names the helper trait and is aligned with its declaration (`refAligned_inh nkeys tp args`: the declaration
+    lists its lifetimes first, the reference passes as many arguments as there are parameters, as printed — `syn`
+    prints lifetime arguments first — the lifetime arguments name the lifetime parameters position by position, then
+    come the `nkeys` key slots, then every argument names the parameter declared at its position); and the declaration
+    is sorted: its lifetimes are `sort()` of the first block's lifetime identifiers, its parameters after the key
+    parameters are `sort()` of the first block's type/const identifiers (`gen_inherent_self_ty_args`).
+    Side conditions: the family is inherent and every parameter of the first block has an identifier. -/
+theorem C17_helper_params_aligned (idx : Nat) (g : T × ABG × List Blk) (tr : T) (hs : List T) (m : T)
+    (ht : helperTraitOfInherent (firstItem_inh g) idx g.2.1.idents.length = .ok tr)
+    (hh : helperImpls idx g = some hs) (hm : mainImplInherent idx g = .ok (some m))
+    (hinh : inherentFamily_inh g = true) (hn : firstNamed_inh g = true) :
+    (∀ h ∈ hs, ∃ hpath, XOK.traitPathOf h = some hpath ∧ XOK.segIdent (XOK.lastSeg hpath) = traitName_inh tr ∧
+        refAligned_inh g.2.1.idents.length (traitParams_inh tr) (XOK.segArgs (XOK.lastSeg hpath)) = true) ∧
+    (∃ href, mainHref_inh m = some href ∧ XOK.segIdent (XOK.lastSeg href) = traitName_inh tr ∧
+        refAligned_inh g.2.1.idents.length (traitParams_inh tr) (XOK.segArgs (XOK.lastSeg href)) = true) ∧
+    (∃ gen, implGenerics (firstItem_inh g) = some gen ∧
+      ((traitParams_inh tr).filter isLifetimeParam).map pname_inh = sortStr (lifetimeParamIdents gen) ∧
+      (((traitParams_inh tr).filter (fun p => !isLifetimeParam p)).drop g.2.1.idents.length).map pname_inh =
+        sortStr (otherParamIdents gen)) :=
+  helper_params_aligned_inh idx g tr hs m ht hh hm hinh hn
+
+/-- the two sorts of inherent mode agree on every parameter list: `sort_by_key(|p| (!is_lifetime, ident))` on the
+    declared parameters (helper trait) lists the lifetimes / the other parameters in the order `sort()` puts their
+    identifiers in (`gen_inherent_self_ty_args`) — the content of the fix cb951c4. No side condition. -/
+theorem C17_sorts_agree (ps : List T) :
+    ltNames_inh (sortParams ps) = sortStr (ltNames_inh ps) ∧ otNames_inh (sortParams ps) = sortStr (otNames_inh ps) :=
+  ⟨ltNames_sortParams_inh ps, otNames_sortParams_inh ps⟩
+
+/-- (2) every item of the main inherent impl is the first block's item with its value replaced by the delegation to
+    the helper trait: the impl has as many items as the first block; item by item, kind, attributes, visibility,
+    defaultness, name, generics and type / signature are those of the first block's item (`itemKeeps_inh`: everything
+    but the last child), and — for a const / type / fn item of the shape `syn` produces — the last child is
+    `<Self as href>::name`, as an expression / a type / the body `{ <Self as href>::name(args…) }` with the parameter
+    patterns re-read as expressions (`delegatesTo_inh`), where `href` is the very helper reference the impl's
+    where-clause bounds `Self` by. In particular the visibility is exactly the one the user wrote. -/
+theorem C17_items_delegate (idx : Nat) (g : T × ABG × List Blk) (m : T)
+    (hm : mainImplInherent idx g = .ok (some m)) :
+    ∃ href, mainHref_inh m = some href ∧
+      (implItems m).length = (implItems (firstItem_inh g)).length ∧
+      ∀ (i : Nat) (h1 : i < (implItems (firstItem_inh g)).length) (h2 : i < (implItems m).length),
+        itemKeeps_inh (implItems (firstItem_inh g))[i] (implItems m)[i] = true ∧
+        (itemShaped_inh (implItems (firstItem_inh g))[i] = true →
+          delegatesTo_inh href (implItems (firstItem_inh g))[i] (implItems m)[i] = true ∧
+          XOK.kid (implItems m)[i] 1 = XOK.kid (implItems (firstItem_inh g))[i] 1 ∧
+          XOK.kid (implItems m)[i] 3 = XOK.kid (implItems (firstItem_inh g))[i] 3) := by
+  obtain ⟨first, rest, href, hg, hhref, hlen, hall⟩ := items_delegate_inh hm
+  have hfirst : firstItem_inh g = first.item := by simp [firstItem_inh, hg]
+  refine ⟨href, hhref, by rw [hfirst]; exact hlen, ?_⟩
+  intro i h1 h2
+  have h1' : i < (implItems first.item).length := by rw [← hfirst]; exact h1
+  have hget : (implItems (firstItem_inh g))[i] = (implItems first.item)[i] := by simp [hfirst]
+  obtain ⟨hk, hd⟩ := hall i h1' h2
+  rw [hget]
+  refine ⟨hk, fun hs => ⟨hd hs, ?_, ?_⟩⟩
+  · exact (itemKeeps_vis_inh hk hs).2.2.1
+  · exact (itemKeeps_vis_inh hk hs).2.2.2.2
+
+/-- the helper impls are the members with every visibility removed and the helper path as their trait (items are
+    otherwise untouched) — the other half of "exactly the visibility the user wrote": it is kept on the main impl
+    (`C17_items_delegate`) and removed on the helper impls, which are trait impls -/
+theorem C17_helper_items_private (idx : Nat) (p0 : T) (idents : List (BKey × String)) (row : List (Option T))
+    (member h : T) (hh : helperImpl idx (some p0) idents row member = some h)
+    (hl : ∃ sid args0, lastSegOf p0 = some (.node "PathSegment" [] [sid, angle args0])) :
+    XOK.kid h 6 = visErased_inh (XOK.kid member 6) ∧ XOK.kid h 3 = XOK.kid member 3 ∧ XOK.kid h 5 = XOK.kid member 5 := by
+  obtain ⟨sid, args0, hl⟩ := hl
+  obtain ⟨x, a, d, u, g, tr, s, items, _, rfl, rfl⟩ := helperImpl_inherent_inv_inh hl hh
+  simp [XOK.kid, XOK.kids]
+
+/-- the helper trait of inherent mode is public, is named `_<Self><idx>` after the first block's self type, keeps the
+    first block's safety qualifier, and has one item per item of the first block: the declaration of that item (same
+    name, same type / signature / generics, no value) for every const / type / fn item of the shape `syn` produces -/
+theorem C17_helper_trait_items (item : T) (idx nkeys : Nat) (tr : T)
+    (h : helperTraitOfInherent item idx nkeys = .ok tr) :
+    XOK.kid tr 1 = .node "Visibility::Public" [] [] ∧ XOK.kid tr 2 = XOK.kid item 2 ∧
+    (∃ x, selfTraitIdent (XOK.kid item 5) = some x ∧ traitName_inh tr = genIdentStr x idx) ∧
+    (XOK.kids (XOK.kid tr 9)).length = (implItems item).length ∧
+    ∀ (i : Nat) (h1 : i < (implItems item).length) (h2 : i < (XOK.kids (XOK.kid tr 9)).length),
+      itemShaped_inh (implItems item)[i] = true →
+        declares_inh (implItems item)[i] (XOK.kids (XOK.kid tr 9))[i] = true :=
+  helper_trait_items_inh h
+
+/-- every parameter the main inherent impl declares is a parameter of the first block; hence, when the first block
+    mentions all its parameters in its self type (`firstParamsInSelf_inh`, executable — what finding D32 violates),
+    every declared parameter of the main impl occurs in its self type (no unconstrained parameter, E0207) -/
+theorem C17_main_params_in_self (idx : Nat) (g : T × ABG × List Blk) (m : T)
+    (hm : mainImplInherent idx g = .ok (some m)) (hin : firstParamsInSelf_inh g = true) :
+    ∀ p ∈ genericsParams (XOK.kid m 3), (identsOf_inh (XOK.kid m 5)).contains (pname_inh p) = true :=
+  main_params_in_self_inh hm hin
+
+namespace ExInh
+open Ex11
+/-- `name<args>` as a self type -/
+def adt (name : String) (args : List T) : T := Ex11.tyPath [.node "PathSegment" [] [.node "Ident" [name] [],
+  .node "PathArguments::AngleBracketed" [] [.node "Ign" [] [leaf "None"],
+    .node "List" [] (args.map (fun a => .node "GenericArgument::Type" [] [a]))]]]
+/-- `vis fn name(&self) {}` -/
+def fnItem (vis : T) (name : String) : T :=
+  .node "ImplItem::Fn" [] [attrs, vis, leaf "None",
+    .node "Signature" [] [leaf "None", leaf "None", leaf "None", leaf "None", .node "Ident" [name] [],
+      .node "Generics" [] [leaf "None", .node "List" [] [], leaf "None", leaf "None"],
+      .node "List" [] [.node "FnArg::Receiver" [] [attrs, .node "Some" [] [leaf "None"], leaf "None", leaf "Type::Reference"]],
+      leaf "None", leaf "ReturnType::Default"],
+    .node "Block" [] [.node "List" [] []]]
+def pubVis : T := leaf "Visibility::Public"
+def privVis : T := leaf "Visibility::Inherited"
+/-- `impl<params> self { items }` (no trait) -/
+def implInh (params : List T) (wc : T) (self : T) (items : List T) : T :=
+  .node "ItemImpl" [] [attrs, leaf "None", leaf "None",
+    .node "Generics" [] [leaf "Some", .node "List" [] params, leaf "Some", wc],
+    leaf "None", self, .node "List" [] items]
+/-- `impl<T: Dispatch<Group = g>> Wrapper<T> { pub fn kita(&self) {} fn hid(&self) {} }`
+    (tests/disjoint_inherent_impl.rs, reduced) -/
+def blockW (g : String) : T :=
+  implInh [tyParam "T" [traitBound (dispatch g)]] (leaf "None") (adt "Wrapper" [tT]) [fnItem pubVis "kita", fnItem privVis "hid"]
+/-- `Dispatch<Group = ty>` -/
+def dispatchTy (ty : T) : T :=
+  path [.node "PathSegment" [] [.node "Ident" ["Dispatch"] [], .node "PathArguments::AngleBracketed" [] [.node "Ign" [] [leaf "None"],
+    .node "List" [] [.node "GenericArgument::AssocType" [] [.node "AssocType" [] [.node "Ident" ["Group"] [], leaf "None", ty]]]]]]
+/-- D32: `impl<T: Dispatch<Group = Vec<U>>, U> W<T> { pub fn name(&self) {} }` -/
+def d32a : T := implInh [tyParam "T" [traitBound (dispatchTy (vecOf tU))], tyParam "U" []] (leaf "None") (adt "W" [tT]) [fnItem pubVis "name"]
+/-- `impl<T: Dispatch<Group = GroupB>> W<T> { pub fn name(&self) {} }` -/
+def d32b : T := implInh [tyParam "T" [traitBound (dispatch "GroupB")]] (leaf "None") (adt "W" [tT]) [fnItem pubVis "name"]
+def maybeSized : T := .node "TypeParamBound::Trait" [] [.node "TraitBound" [] [leaf "None", leaf "TraitBoundModifier::Maybe",
+  leaf "None", path [Ex11.seg "Sized"]]]
+/-- D27: `impl<T: ?Sized + Dispatch<Group = g>> W<T> { pub fn name(&self) {} }` -/
+def d27 (g : String) : T := implInh [tyParam "T" [maybeSized, traitBound (dispatch g)]] (leaf "None") (adt "W" [tT]) [fnItem pubVis "name"]
+/-- `impl<T: Dispatch<Group = GroupA>> W<T> { pub fn name(&self) {} }` -/
+def nestedA : T := implInh [tyParam "T" [traitBound (dispatch "GroupA")]] (leaf "None") (adt "W" [tT]) [fnItem pubVis "name"]
+/-- `impl<T> W<Vec<T>> where Vec<T>: Dispatch<Group = GroupB> { pub fn name(&self) {} }` -/
+def nestedB : T := implInh [tyParam "T" []]
+  (.node "Some" [] [.node "WhereClause" [] [.node "List" [] [pred (vecOf tT) [traitBound (dispatch "GroupB")]]]])
+  (adt "W" [vecOf tT]) [fnItem pubVis "name"]
+
+def ltNode (x : String) : T := .node "Lifetime" [] [.node "Ident" [x] []]
+def ltParam (x : String) : T :=
+  .node "GenericParam::Lifetime" [] [.node "LifetimeParam" [] [attrs, ltNode x, leaf "None", .node "List" [] []]]
+def ltArg (x : String) : T := .node "GenericArgument::Lifetime" [] [ltNode x]
+def tyArg (t : T) : T := .node "GenericArgument::Type" [] [t]
+/-- `name<args>` with explicit generic arguments -/
+def adtArgs (name : String) (args : List T) : T := Ex11.tyPath [.node "PathSegment" [] [.node "Ident" [name] [],
+  .node "PathArguments::AngleBracketed" [] [.node "Ign" [] [leaf "None"], .node "List" [] args]]]
+/-- `impl<'b, U, 'a, T: Dispatch<Group = g>> Wrapper<'a, 'b, T, U> { pub fn kita(&self) {} }`: the parameters are
+    declared in another order than the self type uses them -/
+def blockL (g : String) : T :=
+  implInh [ltParam "b", tyParam "U" [], ltParam "a", tyParam "T" [traitBound (dispatch g)]] (leaf "None")
+    (adtArgs "Wrapper" [ltArg "a", ltArg "b", tyArg tT, tyArg tU]) [fnItem pubVis "kita"]
+
+/-- run the front end and the three generators of inherent mode on the first family and apply a Boolean test -/
+def checkFirst (items : List T) (f : (T × ABG × List Blk) → T → List T → T → Bool) : Bool :=
+  match parseGroups items with
+  | .ok (g :: _) =>
+      (match helperTraitOfInherent (firstItem_inh g) 0 g.2.1.idents.length, helperImpls 0 g, mainImplInherent 0 g with
+       | .ok tr, some hs, .ok (some m) => f g tr hs m
+       | _, _, _ => false)
+  | _ => false
+
+/-- all side conditions of `C17_expandOK_of_expand_inherent` / `C17_helper_params_aligned` / `C17_main_params_in_self` -/
+def sideConditions (g : T × ABG × List Blk) : Bool :=
+  expandWF g && wildcardsFixed g && inherentFamily_inh g && firstNamed_inh g && selfArgsFixed_inh g &&
+    membersDeclare_inh g && membersSized_inh g && firstParamsInSelf_inh g
+
+/-- the main impl declares a parameter that its self type does not mention -/
+def mainUnconstrained (m : T) : Bool :=
+  (genericsParams (XOK.kid m 3)).any (fun p => !(identsOf_inh (XOK.kid m 5)).contains (pname_inh p))
+
+/-- helper impl `h` passes (after the `nkeys` key slots) a parameter it does not declare -/
+def passesUndeclared (nkeys : Nat) (h : T) : Bool :=
+  match XOK.traitPathOf h with
+  | some hp => !argsScoped_inh (genericsParams (XOK.kid h 3)) ((XOK.segArgs (XOK.lastSeg hp)).drop nkeys)
+  | none => false
+
+/-- helper impl `h` passes (after the key slots) a parameter that it relaxes with `?Sized`, for a parameter of the
+    helper trait `tr` that is declared without bounds (implicitly `Sized`) -/
+def passesUnsized (tr : T) (nkeys : Nat) (h : T) : Bool :=
+  match XOK.traitPathOf h with
+  | some hp => !argsSized_inh (XOK.kid h 3) ((XOK.segArgs (XOK.lastSeg hp)).drop nkeys) &&
+      (((traitParams_inh tr).filter (fun p => !isLifetimeParam p)).drop nkeys).all (fun p => p == bareParam p)
+  | none => false
+end ExInh
+
+section InherentExamples
+set_option maxRecDepth 1000000
+
+/-- non-vacuity (tests/disjoint_inherent_impl.rs, reduced to one parameter): the family of the two blocks
+    `impl<T: Dispatch<Group = GroupA>> Wrapper<T> { pub fn kita(&self) {} fn hid(&self) {} }` and the same with `GroupB`
+    has two members, the three generators succeed, all side conditions hold, both checkers accept, and the main impl
+    keeps `pub` on `kita` and no visibility on `hid` -/
+example : ExInh.checkFirst [ExInh.blockW "GroupA", ExInh.blockW "GroupB"]
+    (fun g tr hs m => g.2.2.length == 2 && hs.length == 2 && ExInh.sideConditions g &&
+      expandOKB g (thetasOf g) hs m && expandOKInh_inh g (thetasOf g) tr hs m &&
+      (implItems m).map (fun it => XOK.kid it 1) == [ExInh.pubVis, ExInh.privVis] &&
+      hs.all (fun h => (implItems h).map (fun it => XOK.kid it 1) == [ExInh.privVis, ExInh.privVis]) &&
+      (implItems (firstItem_inh g)).all itemShaped_inh && traitName_inh tr == "_Wrapper0" &&
+      (XOK.kids (XOK.kid tr 9)).length == 2) = true := by with_unfolding_all decide
+
+/-- non-vacuity with lifetimes and a declaration order that differs from the order of use
+    (`impl<'b, U, 'a, T: Dispatch<Group = g>> Wrapper<'a, 'b, T, U>`): the canonical block declares `'_ŠČ1, _ŠČ3, '_ŠČ0, _ŠČ2`,
+    the helper trait declares `'_ŠČ0, '_ŠČ1, _ŠČ4: ?Sized, _ŠČ2, _ŠČ3` (sorted, key parameter after the lifetimes), every
+    helper impl passes `<row, '_ŠČ0, '_ŠČ1, _ŠČ2, _ŠČ3>` (printed with the lifetimes first); all side conditions hold and
+    both checkers accept; and `refAligned_inh` is not vacuous: it rejects the same references against a declaration
+    with the two lifetimes swapped (the defect repaired by cb951c4) -/
+example : ExInh.checkFirst [ExInh.blockL "GroupA", ExInh.blockL "GroupB"]
+    (fun g tr hs m => g.2.2.length == 2 && hs.length == 2 && ExInh.sideConditions g &&
+      expandOKB g (thetasOf g) hs m && expandOKInh_inh g (thetasOf g) tr hs m &&
+      (genericsParams ((implGenerics (firstItem_inh g)).getD (.node "?" [] []))).map pname_inh == ["_ŠČ1", "_ŠČ3", "_ŠČ0", "_ŠČ2"] &&
+      (traitParams_inh tr).map pname_inh == ["_ŠČ0", "_ŠČ1", "_ŠČ4", "_ŠČ2", "_ŠČ3"] &&
+      hs.all (fun h => match XOK.traitPathOf h with
+        | some hp =>
+            (XOK.segArgs (XOK.lastSeg hp)).map isLifetimeArg == [false, true, true, false, false] &&
+            !refAligned_inh 1 (((traitParams_inh tr).take 2).reverse ++ (traitParams_inh tr).drop 2) (XOK.segArgs (XOK.lastSeg hp))
+        | none => false)) = true := by with_unfolding_all decide
+
+/-- finding D32 (helper_trait.rs:16-47, lib.rs `gen_inherent_self_ty_args`): with
+    `impl<T: Dispatch<Group = Vec<U>>, U> W<T>` as the first block (a parameter that occurs only in a payload) and
+    `impl<T: Dispatch<Group = GroupB>> W<T>` as the second, the family is well-formed and the generators succeed, but
+    the side conditions `firstParamsInSelf_inh` and `membersDeclare_inh` fail, the second helper impl passes the
+    parameter `_ŠČ1` that it does not declare (E0425), the main impl declares a parameter its self type does not mention
+    (E0207), and the inherent-mode checker rejects the expansion — while `expandOKCore` accepts it (it does not look at
+    the helper arguments in inherent mode) -/
+theorem C17_payload_only_param_counterexample : ExInh.checkFirst [ExInh.d32a, ExInh.d32b]
+    (fun g tr hs m => g.2.2.length == 2 && expandWF g && wildcardsFixed g && inherentFamily_inh g && firstNamed_inh g &&
+      !firstParamsInSelf_inh g && !membersDeclare_inh g &&
+      (hs.map (ExInh.passesUndeclared g.2.1.idents.length) == [false, true]) && ExInh.mainUnconstrained m &&
+      !expandOKInh_inh g (thetasOf g) tr hs m && expandOKB g (thetasOf g) hs m) = true := by with_unfolding_all decide
+
+/-- … and with the two blocks of D32 in the other order every side condition holds and both checkers accept: the order
+    of the blocks changes acceptance -/
+theorem C17_payload_only_param_order_dependence : ExInh.checkFirst [ExInh.d32b, ExInh.d32a]
+    (fun g tr hs m => g.2.2.length == 2 && ExInh.sideConditions g && !ExInh.mainUnconstrained m &&
+      (hs.map (ExInh.passesUndeclared g.2.1.idents.length) == [false, false]) &&
+      expandOKInh_inh g (thetasOf g) tr hs m && expandOKB g (thetasOf g) hs m) = true := by with_unfolding_all decide
+
+/-- finding D27 (helper_trait.rs:31 `remove_param_bounds`): for the blocks `impl<T: ?Sized + Dispatch<Group = GroupA>> W<T>`
+    and `… GroupB …` the family is well-formed and the generators succeed, but the helper trait declares the self-type
+    parameter without bounds (implicitly `Sized`) while both helper impls pass a parameter they relax with `?Sized`
+    (E0277): the side condition `membersSized_inh` fails and the inherent-mode checker rejects the expansion -/
+theorem C17_relaxed_param_counterexample : ExInh.checkFirst [ExInh.d27 "GroupA", ExInh.d27 "GroupB"]
+    (fun g tr hs m => g.2.2.length == 2 && expandWF g && wildcardsFixed g && inherentFamily_inh g && firstNamed_inh g &&
+      firstParamsInSelf_inh g && membersDeclare_inh g && selfArgsFixed_inh g && !membersSized_inh g &&
+      (hs.map (ExInh.passesUnsized tr g.2.1.idents.length) == [true, true]) &&
+      !expandOKInh_inh g (thetasOf g) tr hs m && expandOKB g (thetasOf g) hs m) = true := by with_unfolding_all decide
+
+/-- nested member in inherent mode: for `impl<T: Dispatch<Group = GroupA>> W<T>` and
+    `impl<T> W<Vec<T>> where Vec<T>: Dispatch<Group = GroupB>` the front end forms one family whose second member has the
+    substitution `_ŠČ0 ↦ Vec<_ŠČ0>`; its helper impl nevertheless passes the first block's parameter `_ŠČ0` itself (not
+    `Vec<_ŠČ0>`) to the helper trait, so it never discharges the main impl's `Self: _W0<…, _ŠČ0>` at a type `W<Vec<X>>`
+    (which asks for `_W0<…, Vec<X>>`): `selfArgsFixed_inh` fails and the inherent-mode checker rejects the expansion,
+    while `expandOKCore` accepts it -/
+theorem C17_nested_member_counterexample : ExInh.checkFirst [ExInh.nestedA, ExInh.nestedB]
+    (fun g tr hs m => g.2.2.length == 2 && expandWF g && wildcardsFixed g && inherentFamily_inh g && firstNamed_inh g &&
+      firstParamsInSelf_inh g && membersDeclare_inh g && membersSized_inh g && !selfArgsFixed_inh g &&
+      !expandOKInh_inh g (thetasOf g) tr hs m && expandOKB g (thetasOf g) hs m) = true := by with_unfolding_all decide
+
+end InherentExamples
 
 end DI
